@@ -628,7 +628,13 @@ func genH(t *rapid.T) H {
 		case k < 18:
 			h.Ops = append(h.Ops, []string{"d", "d", "t", "l", "l"}[rapid.IntRange(0, 4).Draw(t, "dk")])
 		default:
-			h.Ops = append(h.Ops, "p")
+			// (panics are rare: everything behind the first one is only compared
+			// up to the point where it is recovered)
+			if rapid.IntRange(0, 3).Draw(t, "panic") == 0 {
+				h.Ops = append(h.Ops, "p")
+			} else {
+				h.Ops = append(h.Ops, "n")
+			}
 		}
 	}
 	h.Ret = []string{"", "", "", "", "str", "empty", "nilerr", "err"}[rapid.IntRange(0, 7).Draw(t, "ret")]
